@@ -71,6 +71,7 @@ package admin
 //@ ghost var lastFilterPreview bool
 //@ ghost var lastFilterBefore time.Time
 //@ ghost var lastFilterOK bool
+//@ ghost var lastFilterRoute string
 //@ ghost var lastResolvedRoute string
 //@ ghost var lastResolvedOK bool
 //@ ghost var lastParsedIDs []string
@@ -81,13 +82,14 @@ package admin
 
 //@ func parseMessageManageFilter
 //@   requires r != nil
-//@   modifies messagesManageFilterRequest.*, lastFilterLimit, lastFilterState, lastFilterTarget, lastFilterPreview, lastFilterBefore, lastFilterOK
+//@   modifies messagesManageFilterRequest.*, lastFilterLimit, lastFilterState, lastFilterTarget, lastFilterPreview, lastFilterBefore, lastFilterOK, lastFilterRoute
 //@   sets lastFilterLimit := result0.Limit
 //@   sets lastFilterState := result0.State
 //@   sets lastFilterTarget := result0.Target
 //@   sets lastFilterPreview := result0.PreviewOnly
 //@   sets lastFilterBefore := result0.Before
 //@   sets lastFilterOK := result3
+//@   sets lastFilterRoute := result0.Route
 //@   ensures [C14:limit_defaults_to_100_and_caps_at_1000_for_preview_and_real_run_alike] result3 ==> local(req).Limit >= 0 && result0.Limit == ite(local(req).Limit == 0, 100, ite(local(req).Limit > 1000, 1000, local(req).Limit))
 //@   ensures [C14:filter_fields_are_the_request_fields] result3 ==> result0.Route == trim(local(req).Route) && result0.Target == trim(local(req).Target) && result0.PreviewOnly == local(req).PreviewOnly && result1 == trim(local(req).Application) && result2 == trim(local(req).EndpointName)
 //@   ensures [C14:a_named_state_is_one_the_operation_may_touch] result3 ==> (trim(local(req).State) == "" && result0.State == "") || (result0.State == lower(trim(local(req).State)) && result0.State in allowedStates)
@@ -116,7 +118,8 @@ package admin
 //@ func validateManagedSelectorLabels
 //@   trusted
 //@ func parseOptionalRoutePath
-//@   trusted
+//@   ensures [C14:a_named_route_is_passed_on_as_named] result1 ==> result0 == trim(raw) && (result0 == "" || prefixof("/", result0))
+//@   ensures [C14:a_relative_route_is_refused] trim(raw) != "" && !prefixof("/", trim(raw)) ==> !result1
 //@ func managedSelectorRequiredDetail
 //@   trusted
 
@@ -190,6 +193,7 @@ package admin
 //@   requires s != nil && r != nil && r.Header != nil && w != nil
 //@   modifies *
 //@   preserves Server.*
+//@   calls (*Server).resolveManagedRoute requires [C14:the_route_criterion_is_the_route_the_operator_named] arg1 == trim(lastFilterRoute)
 //@   calls parseMessageManageFilter requires [C14:cancel_by_filter_may_name_only_queued_leased_dead] forall st queue.State :: st in arg1 ==> st == queue.StateQueued || st == queue.StateLeased || st == queue.StateDead
 //@   calls queue.Store.CancelMessagesByFilter requires [C14:the_store_gets_exactly_the_parsed_filter_on_the_resolved_route] lastFilterOK && callee_req.Limit == lastFilterLimit && callee_req.State == lastFilterState && callee_req.Target == lastFilterTarget && callee_req.PreviewOnly == lastFilterPreview && callee_req.Before == lastFilterBefore && lastResolvedOK && callee_req.Route == lastResolvedRoute && filterMutations == old(filterMutations)
 //@   ensures [C14:at_most_one_store_mutation_per_request] filterMutations <= old(filterMutations) + 1
@@ -206,6 +210,7 @@ package admin
 //@   requires s != nil && r != nil && r.Header != nil && w != nil
 //@   modifies *
 //@   preserves Server.*
+//@   calls (*Server).resolveManagedRoute requires [C14:the_route_criterion_is_the_route_the_operator_named] arg1 == trim(lastFilterRoute)
 //@   calls parseMessageManageFilter requires [C14:requeue_by_filter_may_name_only_dead_canceled] forall st queue.State :: st in arg1 ==> st == queue.StateDead || st == queue.StateCanceled
 //@   calls queue.Store.RequeueMessagesByFilter requires [C14:the_store_gets_exactly_the_parsed_filter_on_the_resolved_route] lastFilterOK && callee_req.Limit == lastFilterLimit && callee_req.State == lastFilterState && callee_req.Target == lastFilterTarget && callee_req.PreviewOnly == lastFilterPreview && callee_req.Before == lastFilterBefore && lastResolvedOK && callee_req.Route == lastResolvedRoute && filterMutations == old(filterMutations)
 //@   ensures [C14:at_most_one_store_mutation_per_request] filterMutations <= old(filterMutations) + 1
@@ -222,6 +227,7 @@ package admin
 //@   requires s != nil && r != nil && r.Header != nil && w != nil
 //@   modifies *
 //@   preserves Server.*
+//@   calls (*Server).resolveManagedRoute requires [C14:the_route_criterion_is_the_route_the_operator_named] arg1 == trim(lastFilterRoute)
 //@   calls parseMessageManageFilter requires [C14:resume_by_filter_may_name_only_canceled] forall st queue.State :: st in arg1 ==> st == queue.StateCanceled
 //@   calls queue.Store.ResumeMessagesByFilter requires [C14:the_store_gets_exactly_the_parsed_filter_on_the_resolved_route] lastFilterOK && callee_req.Limit == lastFilterLimit && callee_req.State == lastFilterState && callee_req.Target == lastFilterTarget && callee_req.PreviewOnly == lastFilterPreview && callee_req.Before == lastFilterBefore && lastResolvedOK && callee_req.Route == lastResolvedRoute && filterMutations == old(filterMutations)
 //@   ensures [C14:at_most_one_store_mutation_per_request] filterMutations <= old(filterMutations) + 1
